@@ -536,3 +536,109 @@ Section HistoryProofs.
     exists st'. split; [exact H1|]. split; [exact H2|]. rewrite handle_verdict, H2. reflexivity.
   Qed.
 End HistoryProofs.
+
+(* ---- the name table of a context: lookups -------------------------------------------------------------- *)
+Section RegistryProofs.
+  Variables (A R T : Type).
+  Variable teqb : T -> T -> bool.
+  Variable behave : cls -> name -> A -> list name -> list name * R.
+
+  Notation registry := (registry A T).
+  Notation bound := (bound A T).
+  Notation rremove := (rremove A T).
+  Notation rstep := (rstep A R T teqb behave).
+  Notation rrun := (rrun A R T teqb behave).
+  Notation rlookup := (rlookup A T).
+
+  Lemma bound_rremove_same : forall (g : registry) n, bound (rremove n g) n = None.
+  Proof.
+    induction g as [|[m x] r IH]; intros n; simpl; [reflexivity|].
+    destruct (String.eqb n m) eqn:E; [apply IH|]. unfold Model.bound in *. simpl. rewrite E. apply IH.
+  Qed.
+
+  Lemma bound_rremove_other : forall (g : registry) n k, n <> k -> bound (rremove n g) k = bound g k.
+  Proof.
+    induction g as [|[m x] r IH]; intros n k Hnk; simpl; [reflexivity|]. unfold Model.bound in *.
+    destruct (String.eqb n m) eqn:E.
+    - apply String.eqb_eq in E. subst m. simpl.
+      destruct (String.eqb k n) eqn:E2; [apply String.eqb_eq in E2; congruence | apply IH; exact Hnk].
+    - simpl. destruct (String.eqb k m); [reflexivity | apply IH; exact Hnk].
+  Qed.
+
+  Definition rop_name (o : rop A T) : name :=
+    match o with RCreate n _ _ => n | RRemove n => n | RRequest n _ => n end.
+
+  (* operations on other names do not touch the binding of k *)
+  Lemma rstep_other : forall (g : registry) o k, rop_name o <> k -> bound (rstep g o) k = bound g k.
+  Proof.
+    intros g o k H. destruct o as [n c i|n|n o]; simpl in *.
+    - destruct (bound g n); [reflexivity|]. destruct (make_descriptor c); try reflexivity.
+      unfold Model.bound. simpl. destruct (String.eqb k n) eqn:E; [apply String.eqb_eq in E; congruence | reflexivity].
+    - apply bound_rremove_other. exact H.
+    - destruct (bound g n) as [[c st]|] eqn:Eb; [|reflexivity].
+      unfold Model.bound at 1. simpl. destruct (String.eqb k n) eqn:E; [apply String.eqb_eq in E; congruence|].
+      apply bound_rremove_other. exact H.
+  Qed.
+
+  (* a request keeps the class bound to the name (and, if methods do not rebind attributes, the dictionary) *)
+  Lemma rstep_request_class : forall (g : registry) n o c st,
+    bound g n = Some (c, st) ->
+    bound (rstep g (RRequest n o)) n = Some (c, fst (step A R T teqb c (behave c) st o)).
+  Proof.
+    intros g n o c st Hb. simpl. rewrite Hb. unfold Model.bound. simpl. rewrite String.eqb_refl. reflexivity.
+  Qed.
+
+  Lemma rstep_remove : forall (g : registry) n, bound (rstep g (RRemove n)) n = None.
+  Proof. intros g n. simpl. apply bound_rremove_same. Qed.
+
+  Lemma rstep_create_free : forall (g : registry) n c i d,
+    bound g n = None -> make_descriptor c = DOk d ->
+    bound (rstep g (RCreate n c i)) n = Some (c, mkW None i []).
+  Proof.
+    intros g n c i d Hb Hd. simpl. rewrite Hb, Hd. unfold Model.bound. simpl. rewrite String.eqb_refl. reflexivity.
+  Qed.
+
+  Lemma rrun_app : forall l1 l2 (g : registry), rrun g (l1 ++ l2) = rrun (rrun g l1) l2.
+  Proof. induction l1 as [|o r IH]; intros l2 g; simpl; [reflexivity | apply IH]. Qed.
+
+  (* what a lookup yields is a function of the current binding *)
+  Lemma rlookup_current : forall (g : registry) n ms,
+    rlookup g n = Some ms ->
+    exists c st d p, bound g n = Some (c, st) /\ make_descriptor c = DOk d /\ make_proxy d = Some p /\
+                     ms = proxy_methods p.
+  Proof.
+    intros g n ms H. unfold Model.rlookup in H.
+    destruct (bound g n) as [[c st]|] eqn:Eb; [|discriminate].
+    destruct (make_descriptor c) as [| |d] eqn:Ed; try discriminate.
+    destruct (make_proxy d) as [p|] eqn:Ep; [|discriminate].
+    inversion H; subst. exists c, st, d, p. repeat split; assumption.
+  Qed.
+
+  Lemma lookup_advertises_current : forall l (g : registry) n ms,
+    rlookup (rrun g l) n = Some ms ->
+    exists c st, bound (rrun g l) n = Some (c, st) /\
+      (class_ok c = true -> incl (w_inst st) (scanned c) ->
+       forall m, In m ms <-> dispatchable c (w_inst st) m = true).
+  Proof.
+    intros l g n ms H. destruct (rlookup_current _ n ms H) as [c [st [d [p [Hb [Hd [Hp Hms]]]]]]].
+    exists c, st. split; [exact Hb|]. intros Hok Hi m. subst ms.
+    rewrite (proxy_methods_eq_advertised c d p m Hok Hd Hp).
+    apply advertised_eq_dispatchable; assumption.
+  Qed.
+
+  (* remove + create under the same name: the next lookup is built from the NEW class, whatever happened
+     before (earlier lookups are not even operations of the model: they leave no trace) *)
+  Lemma lookup_after_recreate : forall l (g : registry) n c2 i2 d p,
+    make_descriptor c2 = DOk d -> make_proxy d = Some p ->
+    rlookup (rrun g (l ++ [RRemove n; RCreate n c2 i2])) n = Some (proxy_methods p) /\
+    bound (rrun g (l ++ [RRemove n; RCreate n c2 i2])) n = Some (c2, mkW None i2 []).
+  Proof.
+    intros l g n c2 i2 d p Hd Hp. rewrite rrun_app.
+    change (rrun (rrun g l) [RRemove n; RCreate n c2 i2])
+      with (rstep (rstep (rrun g l) (RRemove n)) (RCreate n c2 i2)).
+    set (g1 := rrun g l).
+    assert (Hb : bound (rstep (rstep g1 (RRemove n)) (RCreate n c2 i2)) n = Some (c2, mkW None i2 [])).
+    { eapply rstep_create_free; [apply rstep_remove | exact Hd]. }
+    split; [|exact Hb]. unfold Model.rlookup. rewrite Hb, Hd, Hp. reflexivity.
+  Qed.
+End RegistryProofs.
